@@ -3,7 +3,9 @@
 //!
 //! Implementation: `parse + evaluate` of the FEEL texts `f(a1, …)` and `f(p1: a1, …)`.
 //! Model: `(c08 call checked <name> positional|named …)` — the regenerated dispatch tables
-//! interpreted over `Dmn.Bif.core_*`.  Specification: `(c08 spec <name> …)` — `Dmn.Spec.apply`.
+//! interpreted over `Dmn.Bif.core_*`.  Specification: `(c08 spec <name> …)` — `Dmn.Spec.apply`; for `mode` and
+//! `stddev` the declarative `Dmn.Spec.mode` / `Dmn.Spec.stddev` (`Spec.applyStats`; theorems `core_mode_spec`,
+//! `core_stddev_spec`), compared with the exact representation (`stats_families`).
 //!
 //! Compared: implementation = model (ImplVsModel, exact representation, panics included),
 //! implementation = specification (ImplVsSpec, numbers by value), named = positional on the
@@ -382,6 +384,10 @@ const TYPED_ORDERINGS: &[(&str, &str)] = &[
 /// `sort(list, f)` against the law: when the relation `f(x, y) = true`, with `f` invoked directly (so with the
 /// conversions of an invocation), is a strict weak order on the items, the result is the one stable arrangement of
 /// the items in that order.  `None`: the law does not apply (the list or the relation is not of that kind).
+/// This is the executable form of the theorems `core_sort_stable_spec` / `core_sort_eq_stable_arrangement` of
+/// `lean/Dmn/Props/C08.lean`: the four conditions tested below are `Spec.StrictWeakOrderOn` (on the items only), the
+/// insertion loop is `Spec.stableArrangement`, and the theorem says that the merge sort of `core::sort` returns that
+/// list; `stable_sort_unique`: there is no other stable arrangement.
 fn sort_law(scope: &Scope, list: &str, f: &str) -> Option<Vec<String>> {
   let items: Vec<String> = match run_impl(scope, list) {
     Impl::Val(Value::List(items)) => items.as_vec().iter().map(|v| value_sexp(v).map(|s| s.to_string())).collect::<Option<Vec<_>>>()?,
@@ -761,6 +767,10 @@ fn generate(rng: &mut Rng, thorough: bool) -> Vec<Call> {
     }
   }
 
+  // ---------------------------------------------------------------- mode / stddev against their declarative specifications
+  // (`Spec.mode`, `Spec.stddev`; theorems core_mode_spec / core_stddev_spec): about 2 000 calls each per quick run
+  stats_families(rng, scale, &mut add);
+
   // ---------------------------------------------------------------- contexts, not, number, string
   let ctxs = ["{}", "{a: 1}", "{a: 1, b: \"x\"}", "{b: 2, a: 1}", "{a: null}", "{a: {b: [1, 2]}}", "{\"a b\": 1, c: [true]}"];
   for c in ctxs {
@@ -805,6 +815,92 @@ fn generate(rng: &mut Rng, thorough: bool) -> Vec<Call> {
     }
   }
   calls
+}
+
+/// `mode`: few values in several spellings each (`1`, `1.0`, `1.00`: one value, shown in the spelling of its first
+/// occurrence), so that values repeat and several of them share the greatest count; negative numbers and zeros of
+/// both signs, 34-digit values, computed items (`1/3` = `2/6`, `0.1 + 0.2` = `0.3`, `0 * -1`); sometimes an item that
+/// is not a number.  `stddev`: decimals of a few digits in several spellings; the lists are chosen so that the mean is
+/// a short decimal (2, 4, 5 or 8 items, or integers whose sum is a multiple of the count): every square is then exact
+/// and the code's `power(x, 2)` (not the correctly rounded product for 34-digit operands) cannot differ from the
+/// model's multiplication; a few fixed lists of 34-digit values.  Both in the list form and the varargs form.
+fn stats_families(rng: &mut Rng, scale: u64, add: &mut dyn FnMut(&'static str, Vec<String>, &'static str)) {
+  let values: Vec<Vec<&str>> = vec![
+    vec!["1", "1.0", "1.00", "1.000"],
+    vec!["0", "-0", "0.0", "0.00", "-0.0", "0 * -1"],
+    vec!["2", "2.0", "2.00"],
+    vec!["-1", "-1.0", "-1.00"],
+    vec!["-2.5", "-2.50", "-2.500"],
+    vec!["0.5", "0.50", "1/2"],
+    vec!["10", "10.0", "10.00"],
+    vec!["100", "100.0"],
+    vec!["3"],
+    vec!["-7", "-7.0"],
+    vec!["1/3", "2/6"],
+    vec!["0.1 + 0.2", "0.3", "0.30"],
+    vec!["9999999999999999999999999999999999"],
+    vec!["-9999999999999999999999999999999999"],
+    vec!["1234567890123456789012345678901234", "1234567890123456789012345678901234.0"],
+    vec!["1234567890123456789012345678901233"],
+    vec!["0.1234567890123456789012345678901234", "0.12345678901234567890123456789012340"],
+    vec!["0.0000000000000000000000000000000001"],
+    vec!["1000000000000000000000000000000000", "1000000000000000000000000000000000.0"],
+  ];
+  for _ in 0..(1000 * scale) {
+    let k = 1 + rng.below(4) as usize;
+    let chosen: Vec<&Vec<&str>> = (0..k).map(|_| rng.pick(&values)).collect();
+    let len = rng.below(10) as usize;
+    let mut items: Vec<String> = (0..len)
+      .map(|_| {
+        let v: &Vec<&str> = *rng.pick(chosen.as_slice());
+        rng.pick(v.as_slice()).to_string()
+      })
+      .collect();
+    if rng.chance(1, 8) && !items.is_empty() {
+      let i = rng.below(items.len() as u64) as usize;
+      items[i] = rng.pick(&["null", "true", "\"a\"", "[1]", "1/0"]).to_string();
+    }
+    add("mode", vec![format!("[{}]", items.join(", "))], "mode-spec");
+    if !items.is_empty() {
+      add("mode", items, "mode-spec-varargs");
+    }
+  }
+  let decimals = ["1", "1.0", "1.00", "2", "3", "4", "6", "-1", "-2.5", "2.50", "0.25", "10", "100", "7", "-0", "0", "1.5", "-3", "-7.25", "1000", "12.5", "0.125", "-0.5", "2.0"];
+  let integers = ["0", "1", "2", "3", "5", "-1", "-4", "7", "10", "12", "-9", "100", "1.0", "3.00", "-0"];
+  for _ in 0..(1000 * scale) {
+    let n = rng.below(9) as usize;
+    let mut items: Vec<String> = if matches!(n, 3 | 6 | 7) {
+      // integers whose sum is a multiple of the count
+      let mut xs: Vec<String> = (0..n - 1).map(|_| rng.pick(&integers).to_string()).collect();
+      let sum: i64 = xs.iter().map(|t| t.split('.').next().unwrap_or("0").parse::<i64>().unwrap_or(0)).sum();
+      let last = (n as i64 - sum.rem_euclid(n as i64)) % n as i64 + n as i64 * rng.range(-2, 2);
+      xs.push(last.to_string());
+      xs
+    } else {
+      (0..n).map(|_| rng.pick(&decimals).to_string()).collect()
+    };
+    if rng.chance(1, 10) && !items.is_empty() {
+      let i = rng.below(items.len() as u64) as usize;
+      items[i] = rng.pick(&["null", "true", "\"a\"", "[1]"]).to_string();
+    }
+    add("stddev", vec![format!("[{}]", items.join(", "))], "stddev-spec");
+    if !items.is_empty() {
+      add("stddev", items, "stddev-spec-varargs");
+    }
+  }
+  for l in [
+    "[9999999999999999999999999999999999, 1]",
+    "[9999999999999999999999999999999999, 9999999999999999999999999999999999]",
+    "[9999999999999999999999999999999999, -9999999999999999999999999999999999]",
+    "[1234567890123456789012345678901234, 1234567890123456789012345678901232]",
+    "[0.0000000000000000000000000000000001, 0.0000000000000000000000000000000003]",
+    "[1000000000000000000000000000000000, 3000000000000000000000000000000000, 2000000000000000000000000000000000]",
+    "[0.1234567890123456789012345678901234, 0.1234567890123456789012345678901234]",
+    "[5000000000000000000000000000000000, 1, 2, 1]",
+  ] {
+    add("stddev", vec![l.into()], "stddev-spec-wide");
+    add("mode", vec![l.into()], "mode-spec");
+  }
 }
 
 /// numbers by value: `(n neg coeff exp)` without trailing zeros, every zero alike
@@ -1025,7 +1121,7 @@ pub fn run(cfg: &Cfg) -> Report {
   }
   let mut rep = Report::new(
     "C08",
-    "FEEL invocations f(args) and f(name: arg, …) of the 37 built-ins of the property: substring over strings of 0..8 ASCII / BMP / supplementary characters with every position and length in -(n+2)..n+2, 0, non-integers, 2.0-style integers and usize/isize bounds; sublist / insert before / remove over lists of length 0..8 (duplicates, nested lists, nulls, contexts) with the same position grid; string pairs with the match taken from every cut of the input; all/any over every list of {true,false,null,1} up to length 3; aggregates over random number / string lists incl. the varargs form; number() over a text × separator grid; every built-in with every arity 0..5 and arbitrary arguments. Non-trivial: the implementation's positional answer is not null; distinct by request line.",
+    "FEEL invocations f(args) and f(name: arg, …) of the 37 built-ins of the property: substring over strings of 0..8 ASCII / BMP / supplementary characters with every position and length in -(n+2)..n+2, 0, non-integers, 2.0-style integers and usize/isize bounds; sublist / insert before / remove over lists of length 0..8 (duplicates, nested lists, nulls, contexts) with the same position grid; string pairs with the match taken from every cut of the input; all/any over every list of {true,false,null,1} up to length 3; aggregates over random number / string lists incl. the varargs form; mode over few values in several spellings each (1, 1.0, 1.00), zeros of both signs, negative, computed and 34-digit values, and stddev over short decimals with a short mean plus fixed 34-digit lists, both against their declarative specification (about 2 000 calls each); number() over a text × separator grid; every built-in with every arity 0..5 and arbitrary arguments. Non-trivial: the implementation's positional answer is not null; distinct by request line.",
   );
   let mut model = Model::start(&cfg.driver);
   let mut rng = Rng::new(cfg.seed);
@@ -1208,9 +1304,20 @@ pub fn run(cfg: &Cfg) -> Report {
       if ans == "(nospec)" {
         nospec += 1;
       } else if let Some(Sexp::List(xs)) = Sexp::parse(ans) {
+        if xs.len() == 3 && xs[0].as_atom() == Some("specs-differ") {
+          // the executable form `Spec.modeV` and the declarative form `Spec.mode` of the specification disagree
+          rep.disagree(Kind::ImplVsModel, "spec", &format!("{}: the two forms of the specification differ", bif), &input, &format!("(ok {})", xs[1]), &format!("(ok {})", xs[2]));
+        }
         if xs.len() == 2 && xs[0].as_atom() == Some("spec") {
+          // `mode` and `stddev` have a declarative specification that fixes the representation as well (the
+          // spelling of the first occurrence; the reduced result of the last operation): compared exactly
+          let exact = bif == "mode" || bif == "stddev";
+          if exact {
+            rep.hit(&format!("declarative-spec:{}", bif));
+          }
           let want = canon(&xs[1]);
           let ok = match &d.pos {
+            Impl::Val(v) if exact => value_sexp(v).map(|s| plain_exp(&s) == plain_exp(&xs[1])).unwrap_or(false),
             Impl::Val(v) => value_sexp(v).map(|s| canon(&s) == want).unwrap_or(false),
             Impl::Panic(_) => false,
           };
